@@ -1,7 +1,7 @@
 """C18 — Inbound rate limiting and ban lists are enforced (structural clauses only)."""
 import re
 
-from analysis import (Prov, Guards, fmt, fmt_short, walk, roots, short, comparison, find_calls, callee_matches,
+from analysis import (membership_test, mirror, Prov, Guards, fmt, fmt_short, walk, roots, short, comparison, find_calls, callee_matches,
                       must_pass, const_int_of, normalised_cmp)
 from facts import AnchorError, strip_closure
 from harness import Rule, guarded
@@ -62,10 +62,14 @@ def pass_rule(rule, facts, fn, permit_field, ban_field, key_desc, limit_kind, ba
         if neg:
             f, tr = tr, f
         s = fmt(inner)
-        if inner[0] == "call" and short(inner[1]).endswith("HashSet::contains") and ("PERMIT_BAN_LIST" in s and permit_field in fmt_short(inner[2][0])):
-            permit_true.append((bi, tr)); permit_false.append((bi, f))
-        if inner[0] == "call" and short(inner[1]).endswith("HashMap::contains_key") and ("PERMIT_BAN_LIST" in s and ban_field in fmt_short(inner[2][0])):
-            banned_true.append((bi, tr)); banned_false.append((bi, f))
+        mt = membership_test(inner)
+        if mt is not None and "PERMIT_BAN_LIST" in s:
+            cont, _key, mneg = mt
+            tt, ff = (f, tr) if mneg else (tr, f)
+            if permit_field in fmt_short(cont):
+                permit_true.append((bi, tt)); permit_false.append((bi, ff))
+            if ban_field in fmt_short(cont):
+                banned_true.append((bi, tt)); banned_false.append((bi, ff))
         if fmt_short(inner) == "self.enabled":
             en_true.append((bi, tr)); en_false.append((bi, f))
     allows = [(bi, t) for bi, t in b.calls() if (t.callee() or "").endswith("rate_limiter::RateLimiter::allows")]
@@ -120,8 +124,9 @@ def r1(ctx):
             inner = e
             while inner[0] == "un":
                 inner = inner[2]
-            if inner[0] == "call" and re.search(r"Hash(Set::contains|Map::contains_key)$", short(inner[1])) and "PERMIT_BAN_LIST" in fmt(inner):
-                k = fmt_short(inner[2][1])
+            mt = membership_test(inner)
+            if mt is not None and "PERMIT_BAN_LIST" in fmt(inner):
+                k = fmt_short(mt[1])
                 rule.check(k == want, "%s tests %s" % (fn, k), "%s|list-key" % fn, "%s looks up %s in the permit/ban list" % (fn, k), loc=b.loc(t.line))
     # within a stage: the sender's own quota is consulted (and, if exceeded, the sender banned) before the shared total quota is charged -
     # otherwise a sender over its quota drains the total budget of everyone else, and is dropped without being banned once the total is spent
@@ -167,9 +172,10 @@ def r1(ctx):
         inner, neg = e, False
         while inner[0] == "un" and inner[1] == "Not":
             inner, neg = inner[2], not neg
-        if inner[0] == "call" and short(inner[1]).endswith("Option::is_some") and "expected_responses" in fmt_short(inner):
+        mt = membership_test(inner)
+        if mt is not None and "expected_responses" in fmt_short(mt[0]):
             f, tr = g.bool_edges(bi)
-            exempt.append((bi, f if neg else tr))
+            exempt.append((bi, f if (neg != mt[2]) else tr))
     ip_pass = bool_pass_edges(g, lambda e: e[0] == "call" and e[1] == F + "initial_pass")
     fp_pass = bool_pass_edges(g, lambda e: e[0] == "call" and e[1] == F + "final_pass")
     r = hi.reachable(0, removed_edges=exempt + ip_pass)
@@ -199,6 +205,8 @@ def r2(ctx):
     rule = Rule("C18.R2", "excess is banned for the configured duration (Ip / NodeId); exceeding the total quota drops without banning", floor=5,
                 engine="A-dom + A-prov")
     for fn, kind, ban_field, key in (("initial_pass", "Ip", "ban_ips", "SocketAddr::ip(src)"), ("final_pass", "NodeId", "ban_nodes", "node_address.node_id")):
+        if fn not in getattr(ctx, "c18", {}):
+            raise AnchorError("%s: the stage tests were not identified (see C18.R1)" % fn)
         b, p, g, allows, trues, falses = ctx.c18[fn]
         for abi, at in allows:
             lk = p.operand(at.args[1])
@@ -388,11 +396,10 @@ def r4(ctx):
         nc = normalised_cmp(e, conf_atom)
         if nc and set(nc[0]) == {"now", "tat", "t*tokens", "tau"}:
             conf.append(nc)
-    okc = len(conf) == 1
-    if okc:
-        d, k, op = conf[0]
+    okc = len(set(bi_ for bi_ in [0])) == 1 and bool(conf)
+    for d, k, op in conf:
         s_ = d["now"]
-        okc = k == 0 and d == {"now": s_, "tat": -s_, "t*tokens": -s_, "tau": s_} and ((s_ == 1 and op == "<") or (s_ == -1 and op == ">"))
+        okc = okc and k == 0 and d == {"now": s_, "tat": -s_, "t*tokens": -s_, "tau": s_} and ((s_ == 1 and op == "<") or (s_ == -1 and op == ">"))
     rule.check(okc, "refusal test: now < (tat + t*tokens) - tau", "limiter|conformance-test",
                "Limiter::allows refuses on %s instead of now < tat + t*tokens - tau" % (conf,), loc=la.loc(la.line))
     # prune
